@@ -273,4 +273,21 @@ CHECKS["C10"] = {
     ],
 }
 
+CHECKS["C03"] = {
+    "pkg": "./checks/c03",
+    "level": "exploration",
+    "rule": "rapid state machine on one real node (a bystander, or one of the deputies so that it signs confirms itself) with 1..7 deputies, fed by a factory node that mines as any deputy: mine(child of any live block, any rank, first or second round), "
+            "deliver(any block, again, before its parent, carrying 0..3 generated confirms in its body), confirm(any block, 1..4 signatures each drawn from: valid by deputy i, the same bytes again, re-encoded (s -> n-s), by an outsider key, "
+            "by the block's miner (also re-encoded), random bytes, a deputy's signature for another block; packet with wrong height or unknown hash). Invariants after every step: stable height never decreases; the new stable block is a descendant of the previous one "
+            "(harness parent links); the promoted block carries >= ceil(2n/3) distinct deputy signers (header + stored confirms, recovered by the harness and matched to its own key table); blocks by height up to stable are the stable block's ancestor chain and never change; "
+            "the head is the stable block or a descendant. non-trivial = >= 1 promotion and (a fork or an adversarial signature / packet); distinct by history digest.",
+    "level_text": "Stateful generated histories with history invariants checked after every step; the signer count is recomputed independently from the stored signatures. Exploration bounded by ~30 steps per history.",
+    "level_note": "Trusted: the harness's parent links and key table; Ecrecover as a primitive; production term lengths (no term change inside these histories).",
+    "technique": "rapid stateful testing with history invariants",
+    "assumptions": ["ancestors made stable together with a promoted block are exempt from the signer count, as the statement says"],
+    "units": [
+        {"name": "finality", "test": "TestC03Finality", "quick": {"checks": 250, "shards": 4, "timeout": 900}, "thorough": {"checks": 4000, "shards": 12, "timeout": 3400}},
+    ],
+}
+
 NOT_APPLICABLE = {}
